@@ -174,7 +174,13 @@ def run(tier, seed):
         sources.append(("triple", a + s1 + bb + s2 + c))
         if tier != "quick":
             sources.append(("triple", a + " " + bb + "\n" + c))
-    # longest operator followed by every byte
+    # the input ends inside a comment (no line ending after it), after blanks, or after a lone CR: the END token's position
+    tails = ["//", "// c", " // é€ x", "\n// c", "\r\n  //c", "\n\n//", "// a // b", " ", "\t", "\n  ", "\r\n", "\n//\n//x"]
+    for a in vocab + ["let x = 1;", "let s = \"é\";\nlet y = s;"]:
+        for t in tails:
+            sources.append(("tail", a + t))
+    for t in tails:
+        sources.append(("tail", t))
     for o in MULTI:
         for c in range(1, 128):
             sources.append(("longest", o + chr(c) + " x"))
